@@ -46,6 +46,8 @@ OBLIGATIONS = [
     "SkVerif.C13.phase_after_fit",
     "SkVerif.C13.detrend_roundtrip",
     "SkVerif.C13.detrend_trend_is_function_of_label",
+    "SkVerif.C13.detrend_update_without_refit_keeps_trend_partial",
+    "SkVerif.C13.detrend_update_earlier_batch_moves_trend",
     "SkVerif.C13.boxcox_roundtrip",
     "SkVerif.C13.adaptor_roundtrip",
     "SkVerif.C13.index_preserved",
@@ -93,7 +95,10 @@ LEVEL_TEXT = ("proof for the model: alignment of the seasonal component for ever
               "hypothesis); index preservation of the tagged transformers and of HampelFilter; fit_transform = fit;transform; shift equivariance of "
               "every call and history of every modelled transformer incl. HampelFilter; a successful re-fit forgets the object's history (same parameters "
               "=> same results as a fresh object); tie to the code by differential correspondence over call histories")
-LEVEL_NOTE = ("All clauses are proved at full strength for the model of the code after the fixes 1ad9b8f (Deseasonalizer keeps its phase reference across "
+LEVEL_NOTE = ("PARTIAL in one place: 'a Detrender.update(update_params=False) changes no later transform / inverse_transform result' is proved only for "
+              "batches that do not start before the first remembered time point; the negation is proved at a witness and reproduced on the real code as "
+              "a KNOWN-FINDING (PolynomialTrendForecaster._predict reads the regression origin from the current _y.index[0]; patch proposed). "
+              "All other clauses are proved at full strength for the model of the code after the fixes 1ad9b8f (Deseasonalizer keeps its phase reference across "
               "update and failed re-fit) and bc08df8 (HampelFilter reads windows by position); the witnesses of the fixed defects stay in the corpus and "
               "re-introducing either defect makes the oracle fail. Observed only (oracle on real code, no model): Imputer, ACF/PACF, cos. Library code "
               "(statsmodels decomposition, scipy Box-Cox, sklearn transformers, seasonality test) enters as data / uninterpreted functions.")
@@ -749,15 +754,54 @@ def oracle(case, out):
             if op["op"] in ("tr", "ft") and P[i][0] == "odd":
                 add(site + ".transform:not-a-series", "op %d returned %s" % (i, main[i]))
 
-    # (2) inverse_transform(transform(z)) == z wherever transform(z) is finite, same index
+    eff = _eff_cfg(cfg)[0]
+
+    def quiet_updates(k, i):
+        """ops strictly between k and i: -> None if something re-estimates (fit, fit_transform, an update that refits or
+        raised), else (number of successful NON-re-estimating updates, does one of their batches start before
+        every time point the object had seen so far)"""
+        start = None
+        for j in range(k, -1, -1):        # the series the object was last fitted on
+            if ops[j]["op"] in ("fit", "ft") and P[j][0] in ("ok", "ser") and ins[j] is not None and ins[j][0]:
+                start = min(ins[j][0])
+                break
+        n_upd, earlier = 0, False
+        for j in range(0, i):
+            o = ops[j]
+            if j > k and o["op"] in ("fit", "ft"):
+                return None
+            if o["op"] != "upd":
+                continue
+            okj = P[j][0] == "ok" and ins[j] is not None
+            if j > k:
+                if not okj:
+                    return None
+                if eff in ("des", "cdes"):
+                    pass                   # the seasonal component is never re-estimated by update
+                elif eff == "det" and o.get("up") is False:
+                    pass                   # update_params=False: the trend model is not re-fitted
+                else:
+                    return None
+                n_upd += 1
+                if ins[j][0] and start is not None and min(ins[j][0]) < start:
+                    earlier = True
+            if okj and ins[j][0] and start is not None:
+                start = min(start, min(ins[j][0]))
+        return n_upd, earlier
+
+    # (2) inverse_transform(transform(z)) == z wherever transform(z) is finite, same index;
+    #     (2b) also ACROSS intervening updates that re-estimate nothing
     for i, op in enumerate(ops):
         if op["op"] != "inv" or op.get("ref") is None or P[i][0] != "ser":
             continue
         k = op["ref"]
         if not (k < i and ops[k]["op"] in ("tr", "ft") and P[k][0] == "ser" and ins[k] is not None):
             continue
-        if any(o["op"] in ("fit", "upd", "ft") for o in ops[k + 1:i]):
+        qu = quiet_updates(k, i)
+        if qu is None:
             continue
+        rt_key = ".inverse_transform:roundtrip-values" if qu[0] == 0 else (
+            ".inverse_transform:roundtrip-across-update" + (":earlier-batch" if qu[1] else ""))
         zl, zv = ins[k]
         lam = None
         if _eff_cfg(cfg)[0] == "bc":
@@ -782,8 +826,34 @@ def oracle(case, out):
                     continue
                 tol += 64 * 2.0 ** -52 * (1.0 + abs(lam * y)) / (abs(lam) * abs(base))
             if b is None or abs(b - x) > tol * max(1.0, abs(x)):
-                add(site + ".inverse_transform:roundtrip-values",
-                    "ops %d,%d label %d: z=%r transform=%s inverse(transform)=%s" % (k, i, zl[j], x, tv, bv))
+                add(site + rt_key,
+                    "ops %d,%d label %d: z=%r transform=%s inverse(transform)=%s%s" % (
+                        k, i, zl[j], x, tv, bv, "" if qu[0] == 0 else " (with %d update(s) that re-estimate nothing in between)" % qu[0]))
+                break
+
+    # (2c) an update that re-estimates nothing changes no transform of already known time points: two transform
+    #      calls separated only by such updates agree wherever they receive the same value at the same label
+    tr_idx = [i for i, o in enumerate(ops) if o["op"] == "tr" and P[i][0] == "ser" and ins[i] is not None
+              and P[i][1] == ins[i][0] and len(set(ins[i][0])) == len(ins[i][0])]
+    for a_i, k in enumerate(tr_idx):
+        for i in tr_idx[a_i + 1:]:
+            qu = quiet_updates(k, i)
+            if qu is None:
+                break
+            if qu[0] == 0:
+                continue
+            first = {l: (x, y) for l, x, y in zip(ins[k][0], ins[k][1], P[k][2])}
+            bad = None
+            for l, x, y in zip(ins[i][0], ins[i][1], P[i][2]):
+                if l in first and first[l][0] == x and x is not None:
+                    y0, y1 = first[l][1], y
+                    if (y0 is None) != (y1 is None) or (y0 is not None and abs(_num(y0) - _num(y1)) > rt_tol * max(1.0, abs(_num(y0)))):
+                        bad = (l, x, y0, y1)
+                        break
+            if bad:
+                add(site + ".update:changes-transform-without-reestimating" + (":earlier-batch" if qu[1] else ""),
+                    "ops %d,%d: transform of value %r at label %d was %s, after %d update(s) that re-estimate nothing it is %s"
+                    % (k, i, bad[1], bad[0], bad[2], qu[0], bad[3]))
                 break
 
     # (3) deseasonalizer: the component removed/restored at a time point depends only on its
@@ -1027,7 +1097,7 @@ def _gen_des(tier, rng, cases):
             if tier == "thorough" or rng.random() < 0.5:
                 ub = _series(rng, t0 + sp * rng.randrange(1, 4), rng.randrange(1, 4))
                 ops = [{"op": "fit", "z": z1}, {"op": "tr", "z": z2}, {"op": "upd", "z": ub, "up": rng.choice([None, True, False])},
-                       {"op": "tr", "z": z2}, {"op": "inv", "z": z2, "ref": 3}]
+                       {"op": "tr", "z": z2}, {"op": "inv", "z": z2, "ref": 3}, {"op": "inv", "z": z2, "ref": 1}]
                 cases.append({"cfg": ["des", sp, m], "itype": "range", "shift": rng.choice([0, 4]), "ops": ops})
             # with an update at an arbitrary start (the defect fixed by 1ad9b8f showed when it is not a multiple of sp)
             if tier == "thorough" or rng.random() < 0.5:
@@ -1098,6 +1168,30 @@ def _gen_det(tier, rng, cases):
         if rng.random() < 0.3:
             ops.append({"op": "ft", "z": _series(rng, rng.randrange(-3, 8), rng.randrange(2, 7), positive=False)})
         cases.append({"cfg": cfg, "itype": rng.choice(["range", "int64"]), "shift": rng.choice([0, 0, 7, -5]), "ops": ops})
+        # transform | update(s) that re-estimate nothing | inverse of the earlier result, transform again
+        if r % 2 == 0:
+            zz = _series(rng, t0 + rng.randrange(-3, n + 4), rng.randrange(1, 6), positive=False)
+            ops = [{"op": "fit", "z": z1}, {"op": "tr", "z": zz}]
+            end = t0 + n
+            for _ in range(rng.randrange(1, 3)):
+                kind = rng.choice(["next", "next", "overlap", "later", "empty", "earlier"])
+                ln = rng.randrange(1, 4)
+                if kind == "next":
+                    ub = _series(rng, end, ln, positive=False)
+                    end += ln
+                elif kind == "earlier":
+                    ub = _series(rng, t0 - rng.randrange(1, 5), ln, positive=False)
+                elif kind == "overlap":
+                    ub = _series(rng, end - rng.randrange(1, min(3, n) + 1), ln + 1, positive=False)
+                    end = max(end, ub["l"][-1] + 1)
+                elif kind == "later":
+                    ub = _series(rng, end + rng.randrange(1, 3), ln, positive=False)
+                    end = ub["l"][-1] + 1
+                else:
+                    ub = {"l": [], "v": []}
+                ops.append({"op": "upd", "z": ub, "up": False})
+            ops += [{"op": "inv", "z": zz, "ref": 1}, {"op": "tr", "z": zz}, {"op": "tr", "z": z1}]
+            cases.append({"cfg": cfg, "itype": rng.choice(["range", "int64"]), "shift": rng.choice([0, 0, 3]), "ops": ops})
 
 
 def _gen_col(tier, rng, cases):
